@@ -304,7 +304,12 @@ def run(facts, R):
                         ("websocket_client", ("websocket_client::WebSocketClient::call_with_body_and_timeout::{closure#0}",))):
         if module == "websocket_client" and not has_ws:
             continue
-        for fn in fns:
+        # ... and every other function of the module that registers a guard (a forward / batch sibling added later): same discipline
+        extra = sorted(p_ for p_, b_ in facts.bodies.items() if p_.split("::")[0] == module and p_ not in fns and "::tests::" not in p_
+                       and any(callee_matches(t_["callee"], module + "::PendingRequestGuard::register") for _, t_ in b_.calls()))
+        for p_ in extra:
+            R.note("derived guarded call function of %s: %s" % (module, p_))
+        for fn in tuple(fns) + tuple(extra):
             b = facts.body(fn)
             s = Sym(b)
             regs = [(i, t) for i, t in b.calls() if callee_matches(t["callee"], module + "::PendingRequestGuard::register")]
